@@ -912,8 +912,10 @@ outer:
 				if rn == '{' {
 					buf.Reset()
 					for {
-						rn, _, _ := r.ReadRune()
-						if rn == '}' {
+						rn, _, err := r.ReadRune()
+						if rn == '}' || err != nil {
+							// err: the class name is not terminated (the grammar has
+							// already reported that), do not loop forever
 							break
 						}
 						buf.WriteRune(rn)
